@@ -169,6 +169,17 @@ def gen_C12(tier, seed):
             p.add(lf, cls, 'RAGGED', zones=L(R(z1), R(z2)), values=vals)
             p.write(1, valid=False, mustraise='ragged')
             progs.append(p.build())
+        # a calibration measurement whose controlled attributes have different sample shapes (no DIMENSION given): one DIMENSION
+        # cannot describe them all
+        for j, (a1, a2) in enumerate([(L(L(F(1.0), F(2.0)), L(F(3.0), F(4.0))), L(L(F(10.0), F(20.0), F(30.0)), L(F(40.0), F(50.0), F(60.0)))),
+                                      (L(F(1.0), F(2.0)), L(L(F(1.0), F(2.0)), L(F(3.0), F(4.0))))]):
+            p = fringe(f'cmshapes-{j}-{r_}', 'cmshapes')
+            lf, _ = base_lf(p)
+            c = p.channel(lf, 'CH', data=np.arange(3, dtype='float64'))
+            p.frame(lf, 'FR', [c])
+            p.add(lf, 'calibration_measurement', 'CM', maximum_deviation=a1, standard=a2)
+            p.write(1, valid=False, mustraise='cmshapes')
+            progs.append(p.build())
         # no origin / channels / frames
         p = fringe(f'noorigin-{r_}', 'noorigin')
         minimal(p, origin=False)
